@@ -176,6 +176,8 @@ pub fn bytes32_near() -> BoxedStrategy<Bytes32> {
         // uniform below 2^253 (top three bits clear): reaches the square/non-square and sign tests
         2 => proptest::collection::vec(any::<u8>(), 32).prop_map(|mut b| { b[31] &= 0x1f; Bytes32 { family: "uniform-253".into(), bytes: HexBytes(b) } }),
         1 => gen::fq().prop_map(|v| Bytes32::new("field-pattern", &v.0)),
+        // s solved from a structured intermediate value of decoding (DESIGN §12.4)
+        1 => gen::s_targeted().prop_map(|v| Bytes32::new("targeted-intermediate", &v.0)),
     ]
     .boxed()
 }
